@@ -34,6 +34,14 @@ def generate(r, tier, build):
             reqs.append("word gen=xoshiro state=%s via=serde ops=%s" % (",".join(map(str, st)), ",".join(ops)))
         else:
             reqs.append("word gen=%s seed=%d via=from_seed ops=%s" % (gen, r.edge64(), ",".join(ops)))
+    # SplitMix64 / Wyrand: seeds computed backwards so that a jump STARTS FROM or LANDS ON a structured state (0, 1, all ones, zero halves, ...)
+    from .gen_int import weyl_seed_for
+    for _ in range(400 if tier == "quick" else 12000):
+        gen = r.choice(["wyrand", "splitmix"])
+        draws, jumps = r.choice([0, 0, 1, 2]), r.choice([0, 1, 1, 1, 2, 3])
+        seed, _ = weyl_seed_for(r, gen, draws, jumps)
+        ops = ["u64"] * draws + [r.choice(["jump", "split"]) for _ in range(jumps)] + [r.choice(["jump", "split"]), "u64", r.choice(["jump", "split", "u64"]), "u64"]
+        reqs.append("word gen=%s seed=%d via=from_seed ops=%s" % (gen, seed, ",".join(ops)))
     # ChaCha: jump = stream id + 1 (64-bit), split = clone + jump
     m = 150 if tier == "quick" else 5000
     for _ in range(m):
